@@ -135,7 +135,8 @@ func (c *FlatTailChecker) Update(t *sparse.Vector, d float64) {
 		ranking = append(ranking, entry.Index)
 	}
 	if len(ranking) > c.numLeaders {
-		ranking = ranking[:c.numLeaders]
+		// entries are sorted by ascending value: leaders are at the tail.
+		ranking = ranking[len(ranking)-c.numLeaders:]
 	}
 	if reflect.DeepEqual(ranking, c.stats.Ranking) {
 		c.stats.Length++
